@@ -15,7 +15,7 @@ from ..repo import AnalysisError, attr_chain, norm, walk_no_nested
 from ..cfg import CFG, node_calls
 
 LEVEL = "other"
-TECHNIQUE = "sibling cross-check of the two tree-builder back-ends against base.Node / base.TreeBuilder; CFG pairing of list mutations"
+TECHNIQUE = "sibling cross-check of the two tree-builder back-ends against base.Node / base.TreeBuilder; CFG pairing of list mutations; who-may-write rule on the ElementTree child lists; argument provenance of cloneNode"
 CLAIM = ('Both back-ends implement the complete primitive interface with the base signatures; every primitive '
          'that attaches or detaches a node maintains the parent pointer; in the ElementTree back-end the '
          'shadow child list that reparentChildren/removeChild consult is updated on every path that updates '
